@@ -313,7 +313,7 @@ def check(prop, tier, *, base_seed=None, budget_s=None, max_runs=None, workers=N
             'scheduler_steps': steps,
             'faults_fired': dict(fired),
             'probes': dict(probes),
-            'probes_at_zero': [k for k in getattr(mod, 'PROBES', []) if not probes.get(k)],
+            'probes_at_zero': [k for k in getattr(mod, 'PROBES', []) if not probes.get(k) and not fired.get(k)],
             'known_findings_hit': {k: v[1] for k, v in known_hits.items()},
             'components': getattr(mod, 'COMPONENTS', {}),
             'workers': workers,
